@@ -393,7 +393,6 @@ def route_case(src: str, dotall: bool, tag_name: str):
 
     from django.template import Template
     from django.template.base import UNKNOWN_SOURCE, Origin, Parser, Token, TokenType
-    from django.template.exceptions import TemplateSyntaxError
 
     info = {"cls": "", "obs": None}
     ref, flags = ref_lex(src, dotall)
